@@ -393,10 +393,6 @@ impl<'de, R: Read<'de>> Parser<R> {
         self.read.next()
     }
 
-    fn next_char_or_null(&mut self) -> Result<u8> {
-        Ok(self.next_char()?.unwrap_or(b'\x00'))
-    }
-
     /// Error caused by a byte from next_char().
     fn error(&mut self, reason: ErrorCode) -> Error {
         let pos = self.read.position();
